@@ -8,13 +8,18 @@ from pyopenapi_gen import IRSpec
 from ..context.render_context import RenderContext
 from ..core.utils import NameSanitizer
 from ..core.writers.code_writer import CodeWriter
-from ..core.writers.documentation_writer import DocumentationBlock, DocumentationWriter
+from ..core.writers.documentation_writer import DocumentationBlock, DocumentationWriter, escape_docstring_text
 
 if TYPE_CHECKING:
     # To prevent circular imports if any type from core itself is needed for hints
     pass
 
 logger = logging.getLogger(__name__)  # Added for logging
+
+
+def _docstring_safe(text: str) -> str:
+    """Remove triple quotes and escape backslashes and NUL so the text cannot end or corrupt a docstring."""
+    return text.replace('"""', "'").replace("'''", "'").replace("\\", "\\\\").replace("\x00", "\\x00")
 
 
 class ClientVisitor:
@@ -116,13 +121,15 @@ class ClientVisitor:
         # Build docstring for APIClient
         docstring_lines = []
         # Add API title and version
-        docstring_lines.append(f"{spec.title} (version {spec.version})")
+        title_clean = _docstring_safe(str(spec.title))
+        version_clean = _docstring_safe(str(spec.version))
+        docstring_lines.append(f"{title_clean} (version {version_clean})")
         # Add API description if present
         if getattr(spec, "description", None):
             desc = spec.description
             if desc is not None:
                 # Remove triple quotes, escape backslashes, and dedent
-                desc_clean = desc.replace('"""', "'").replace("'''", "'").replace("\\", "\\\\").strip()
+                desc_clean = _docstring_safe(desc).strip()
                 desc_clean = textwrap.dedent(desc_clean)
                 docstring_lines.append("")
                 docstring_lines.append(desc_clean)
@@ -181,7 +188,7 @@ class ClientVisitor:
 
             writer.write_line(f"def {module_name}(self) -> {class_name}:")
             writer.indent()
-            writer.write_line(f'"""Client for \'{tag}\' endpoints."""')
+            writer.write_line(f'"""Client for \'{escape_docstring_text(tag)}\' endpoints."""')
             writer.write_line(f"if self._{module_name} is None:")
             writer.indent()
             writer.write_line(f"self._{module_name} = {class_name}(self.transport, self._base_url)")
